@@ -1,10 +1,16 @@
 """C19 — any constructible circuit can be displayed, without side effects."""
 from __future__ import annotations
 
+import contextlib
 import copy
 import hashlib
+import io
 import itertools
+import json
+import random
 import sys
+import warnings
+import zlib
 from collections import Counter
 
 import numpy as np
@@ -35,6 +41,8 @@ def make_params(table):
         v = p["v"]
         if v[0] == "num":
             val = v[1] / v[2]
+            if v[2] == 1 and len(out) % 2:
+                val = int(v[1])              # 0 and 1 as int
         elif v[0] == "str":
             val = v[1]
         else:
@@ -57,6 +65,25 @@ def apply_op(pool, op, params):
         pool[cid].ps(m, ph, loss=lo)
     elif k == "loss" and _is_param(op[3]):
         pool[op[1]].loss(op[2], params[op[3][1]])
+    elif k == "unitary":
+        # block labels of every length class (the drawers size and rotate the text by it), or the default
+        h = zlib.crc32(json.dumps(op).encode()) % 6
+        arr = cg.v_to_np(op[3])
+        pool[op[1]] = lw.Unitary(arr) if h == 0 else lw.Unitary(arr, label=["", "V", "ab", "a long label", "U"][h - 1])
+        arr[...] = 0
+    elif k == "add":
+        _, cid, sub, mode, group = op
+        h = zlib.crc32(json.dumps(op).encode()) % 5
+        if h == 0:
+            pool[cid].add(pool[sub], mode, group=group)
+        else:
+            pool[cid].add(pool[sub], mode, group=group, name=["", "G", "ab", "a long group name"][h - 1])
+    elif k == "compress":
+        pool[op[1]].compress_mode_swaps()
+    elif k == "nonadj":
+        pool[op[1]].remove_non_adjacent_bs()
+    elif k == "copyf":
+        pool[op[1]] = pool[op[2]].copy(freeze_parameters=True)
     else:
         cg.apply_op(pool, op)
 
@@ -110,11 +137,45 @@ def _err(e):
     return type(e).__name__
 
 
-def _labels(k):
-    return None if k is None else [f"m{i}" for i in range(k)]
+def _labels(k, style=0):
+    """k mode labels: short strings, empty strings, long strings, digits / blanks / non-ASCII"""
+    if k is None:
+        return None
+    if style == 1:
+        return ["" for _ in range(k)]
+    if style == 2:
+        return [f"a rather long mode label {i}" for i in range(k)]
+    if style == 3:
+        return [("7", " ", "\u03bc\u2081", "-")[i % 4] for i in range(k)]
+    return [f"m{i}" for i in range(k)]
 
 
-def observe_draw(c, params, dt, loss, vals, k):
+def display_method(c, params, dt, loss, vals, k, style, expect_ok):
+    """The same request through Circuit.display(), the entry point users call.  None or text."""
+    import matplotlib.pyplot as plt
+    before = deep_snapshot(c, params)
+    err = None
+    try:
+        with contextlib.redirect_stdout(io.StringIO()), warnings.catch_warnings():
+            warnings.simplefilter("ignore")
+            r = c.display(show_parameter_values=vals, display_loss=loss, mode_labels=_labels(k, style), display_type=dt)
+        if r is not None and expect_ok:
+            return f"circuit.display(...) returned {type(r).__name__}"
+    except Exception as e:  # noqa: BLE001
+        err = _err(e)
+    finally:
+        plt.close("all")
+    if expect_ok and err:
+        return f"circuit.display(display_type={dt!r}, display_loss={loss}, show_parameter_values={vals}, {'no' if k is None else k} labels) raised {err}"
+    if not expect_ok and err != "DisplayError":
+        return f"circuit.display with a label list of the wrong length / unknown type -> {err or 'a drawing'}, expected DisplayError"
+    d = core.approx_equal(before, deep_snapshot(c, params), tol=0.0)
+    if d:
+        return f"circuit changed by circuit.display: {d}"
+    return None
+
+
+def observe_draw(c, params, dt, loss, vals, k, style=0):
     import matplotlib
     import matplotlib.pyplot as plt
     import drawsvg
@@ -122,7 +183,7 @@ def observe_draw(c, params, dt, loss, vals, k):
     before = deep_snapshot(c, params)
     rec = {"ret": None, "pure": None}
     try:
-        r = lw.Display(c, display_loss=loss, mode_labels=_labels(k), display_type=dt, show_parameter_values=vals)
+        r = lw.Display(c, display_loss=loss, mode_labels=_labels(k, style), display_type=dt, show_parameter_values=vals)
         if dt == "mpl":
             good = (isinstance(r, tuple) and len(r) == 2 and isinstance(r[0], matplotlib.figure.Figure)
                     and isinstance(r[1], matplotlib.axes.Axes))
@@ -154,7 +215,7 @@ def observe_draw(c, params, dt, loss, vals, k):
             rec["ret"] = "Drawing" if isinstance(r, drawsvg.Drawing) else type(r).__name__
             # secondary observables of the SVG drawer: the draw_spec it accumulated
             from lightworks.sdk.visualisation.draw_circuit_svg import DrawCircuitSVG
-            d = DrawCircuitSVG(c, loss, _labels(k), vals)
+            d = DrawCircuitSVG(c, loss, _labels(k, style), vals)
             ys = [int(y) for y in d.y_locations]
             trace = []
             for kk, args in d.draw_spec:
@@ -367,7 +428,10 @@ class C19:
             "barriers/swaps, Unitary blocks of every size, heralds on first/last/every mode wrapped into parents; exhaustive small scope of "
             "herald subsets x positions x double addition; Parameter-valued bs/ps/loss with labels None/''/text and numeric/str values) "
             "x EVERY circuit of the pool as display target x {display_loss} x {show_parameter_values} x labels None/right/wrong length "
-            "x svg (all 12 combinations per target), mpl (one valid + sampled invalid per target), unknown display type. "
+            "x svg (all 12 combinations per target), mpl (one valid + sampled invalid per target), unknown display type; label texts short / "
+            "empty / long / blank and non-ASCII; group names and block labels of every length class incl. empty; one request per case repeated "
+            "through Circuit.display(); circuits displayed after remove_non_adjacent_bs / compress_mode_swaps / frozen copy / + / unpack "
+            "(implementation only). "
             "Non-trivial = a displayed target with >= 1 ancilla mode or >= 1 group or a Parameter; distinct = distinct case JSON")
     CHUNK = 25
     TRUSTED = ["matplotlib (Agg) / drawsvg object construction is outside the model (abstract primitives)",
@@ -434,6 +498,41 @@ class C19:
                     prog += [["new", 1, pn], ["add", 1, 0, rng.randint(0, pn - k), rng.random() < 0.5]]
                     prog += gen_param_prims(rng, 1, pn, table, rng.randint(0, 2))
             cases.append(self._case(rng, "param-other" if other else "param", prog, table, n_mpl))
+        # circuits that went through the rewrites, a frozen copy or a sum before they are displayed (implementation only:
+        # the display model is fed by construction calls); few draws per target
+        for i in range(18 if quick else 300):
+            r2 = random.Random(rng.randrange(10**9))
+            table = gen_params(r2) if i % 2 else []
+            if i % 3 == 0:
+                prog = cg.gen_tree_program(r2, tier)
+            else:
+                prog = gen_prim_program(r2, big)
+                if table:
+                    n0 = prog[0][2]
+                    prog[1:1] = gen_param_prims(r2, 0, n0, table, r2.randint(1, 3))
+            ids = [o[1] for o in prog if o[0] in ("new", "unitary", "copy")]
+            nid = max(ids) + 1
+            for _ in range(r2.randint(1, 4)):
+                x = r2.random()
+                t = r2.choice(ids[-3:])
+                if x < 0.35:
+                    prog.append(["nonadj", t])
+                elif x < 0.6:
+                    prog.append(["compress", t])
+                elif x < 0.75:
+                    prog.append(["copyf", nid, t])
+                    ids.append(nid)
+                    nid += 1
+                elif x < 0.9:
+                    prog.append(["plus", nid, t, t])
+                    ids.append(nid)
+                    nid += 1
+                else:
+                    prog.append(["unpack", t])
+            case = self._case(r2, "rw", prog, table, 1)
+            keep = [d for j, d in enumerate(case["draws"]) if d[1] != "svg" or j % 4 == (i % 4)]
+            case["draws"] = keep
+            cases.append(case)
         return cases
 
     # ---- implementation
@@ -442,14 +541,28 @@ class C19:
         world = [[cid, cg.snapshot(pool[cid], with_u=False)] for cid in pool]
         wf = [[cid, wf_real(pool[cid])] for cid in pool]
         draws = []
-        for t, dt, loss, vals, k in c["draws"]:
+        h = zlib.crc32(json.dumps(c["prog"]).encode())
+        want_dt = "mpl" if h % 3 == 0 else "svg"
+        method = None          # one request per case also goes through Circuit.display()
+        method_done = False
+        for i, (t, dt, loss, vals, k) in enumerate(c["draws"]):
             if t not in pool:
                 draws.append({"out": {"err": "NoTarget"}, "ret": None, "pure": None})
                 continue
-            draws.append(observe_draw(pool[t], params, dt, loss, vals, k))
+            style = (h + i) % 4
+            draws.append(observe_draw(pool[t], params, dt, loss, vals, k, style))
+            cc = pool[t]
+            vis = cc.n_modes - len(cc._internal_modes)
+            valid = dt in ("svg", "mpl") and (k is None or k == vis)
+            if not method_done and cc.n_modes >= 1 and ((valid and dt == want_dt and (h + i) % 5 < 2) or (not valid and (h + i) % 11 == 0)) \
+                    and not any(p["v"][0] == "none" for p in c["params"]):
+                method_done = True
+                method = display_method(cc, params, dt, loss, vals, k, style, valid)
+                if method:
+                    method = f"circuit {t}: {method}"
         info = {cid: [pool[cid].n_modes, len(pool[cid]._internal_modes),
                       sum(1 for s in pool[cid]._get_circuit_spec() if type(s).__name__ == "Group")] for cid in pool}
-        return [outcomes, world, draws, {"wf": wf, "info": [[k, v] for k, v in info.items()]}]
+        return [outcomes, world, draws, {"wf": wf, "info": [[k, v] for k, v in info.items()], "method": method, "method_called": method_done}]
 
     # ---- model
     def coq_header(self):
@@ -457,6 +570,8 @@ class C19:
                 "From LW Require Import Base.Sx Base.Num Model.Circuit Model.World Model.Display Exec.QNum Exec.RunCircuit Exec.RunC19.\n")
 
     def coq_expr(self, c):
+        if c["kind"] == "rw":
+            return "SL nil"
         envt = clist(f"({cz(p['v'][1])}, {cz(p['v'][2])})" if p["v"][0] == "num" else "(0%Z, 1%Z)" for p in c["params"])
         pt = clist(f"({cb(p['label'] is not None)}, {cz(PKIND[p['v'][0]])})" for p in c["params"])
         prog = clist("(" + op_to_coq(o) + ")" for o in c["prog"])
@@ -464,6 +579,8 @@ class C19:
         return f"run_c19 {envt} {pt} {prog} {draws}"
 
     def decode(self, c, sx):
+        if c["kind"] == "rw":
+            return None
         outcomes = [({"ok": []} if r[0] == 0 else {"err": core.ERR_CODES.get(r[1], str(r[1]))}) for r in sx[0]]
         world = [[cid, cg.decode_snapshot(s)] for cid, s, _ in sx[1]]
         wf = [[cid, bool(w)] for cid, _, w in sx[1]]
@@ -486,6 +603,8 @@ class C19:
         return [outcomes, world, draws, {"wf": wf}]
 
     def compare(self, c, a, b):
+        if c["kind"] == "rw":
+            return None
         d = core.approx_equal(a[0], b[0], path="outcomes") or core.approx_equal(a[1], b[1], path="world")
         if d:
             return d
@@ -506,6 +625,8 @@ class C19:
             if msg:
                 fails.append(dict(kind="wf", t=cid, n=info[cid][0], err=None,
                                   text=f"circuit {cid} violates the well-formedness invariant: {msg}"))
+        if obs[3].get("method"):
+            fails.append(dict(kind="method", t=None, n=1, err=None, text=obs[3]["method"]))
         for (t, dt, loss, vals, k), d in zip(c["draws"], obs[2]):
             if t not in info:
                 continue
@@ -568,7 +689,9 @@ class C19:
             for (t, dt, loss, vals, k), d in zip(r["case"]["draws"], r["impl"][2]):
                 draws[dt if dt in ("svg", "mpl") else "unknown"] += 1
                 outs[d["out"].get("err", "ok")] += 1
+        meth = sum(1 for r in recs if isinstance(r["impl"], list) and r["impl"][3].get("method_called"))
         return {"kinds": dict(kinds), "display_calls": dict(draws), "outcomes": dict(outs), "circuits_displayed": targets,
+                "requests_repeated_through_Circuit.display()": meth,
                 "ancilla_count_of_targets(4=4+)": dict(anc)}
 
     def shrink(self, c):
